@@ -1,12 +1,13 @@
 PROP = {
     "id": "C18",
     "theorem_modules": ["Verif.Properties.C18"],
-    "min_theorems": 10,
+    "min_theorems": 15,
     "required_theorems": [
         "Verif.Properties.C18.hashtags_distinct",
         "Verif.Properties.C18.hashtags_pinned",
         "Verif.Properties.C18.hashinput_uses_own_tag",
-        "Verif.Properties.C18.eq_equiv_partial",
+        "Verif.Properties.C18.eq_equiv",
+        "Verif.Properties.C18.hash_injective_partial",
         "Verif.Properties.C18.order_total",
         "Verif.Properties.C18.hash_respects_eq",
         "Verif.Properties.C18.typeid_perm_invariant",
@@ -23,8 +24,8 @@ PROP = {
     "level_text": "Lean theorems about a code-shaped model of the per-kind Equal / Less / LessEqual / Greater / "
                   "GreaterEqual / HashInput methods (28 number kinds, strings and characters as normalised bytes, booleans, "
                   "addresses, paths, enums, type values over a static-type algebra with StaticType.Equal and StaticType.ID, "
-                  "optionals, arrays, dictionaries): == is an equivalence on well-formed dictionary-free values; < is a strict "
-                  "total order with <=, >, >= derived and trichotomy with ==; equal values have equal hash input; type IDs are "
+                  "optionals, arrays, dictionaries): == is an equivalence on all well-formed values, dictionaries included (counting argument on pairwise unequal keys); < is a strict "
+                  "total order with <=, >, >= derived and trichotomy with ==; equal values have equal hash input, and equal hash inputs come from equal values for every hashable kind except type values (injectivity of the minimal / fixed-width big-endian number encodings and of the tagged concatenations); type IDs are "
                   "invariant under permutation of intersection members / entitlement sets; equal keys are interchangeable in "
                   "the association-list dictionary. Tag bytes regenerated from hashablevalue.go (distinct, pinned, each "
                   "HashInput uses its own). Tied to /repo by stream `eqhash`: pairs and triples (boundary numbers of every kind, "
@@ -32,10 +33,12 @@ PROP = {
                   "dictionaries) through the real methods, and as keys of {HashableStruct: Int} dictionaries in scripts in "
                   "both engines; law oracles on Go's answers alone (symmetry, reflexivity, transitivity, trichotomy, derived "
                   "comparisons, hash equality for equal keys, no hash collision of unequal keys, dictionary size and lookups).",
-    "level_note": "Partial: the equivalence theorem excludes values containing dictionaries (DictionaryValue.Equal is "
-                  "compared with the model and the symmetry/transitivity oracles only); hash injectivity is an oracle of the "
-                  "stream, not a theorem. Unicode normalisation is trusted (x/text); function types are outside the model.",
-    "assumptions": ["Val.wf: numbers in range of their kind, 8-byte addresses, intersection and entitlement-set members "
+    "level_note": "Partial: hash injectivity is proved for all hashable kinds except type values (needs unambiguity of the "
+                  "type-ID grammar and the shared ID namespace; the stream's no-collision oracle covers them). Unicode normalisation is trusted (x/text); function types are outside the model.",
+    "assumptions": ["Val.keysOK: the keys of every dictionary are hashable and pairwise unequal (what Insert guarantees; checked "
+                    "by the driver on every generated value)",
+                    "Val.idPrintable: enum type IDs contain no byte <= 0x20 (checked by the driver)",
+                    "Val.wf: numbers in range of their kind, 8-byte addresses, intersection and entitlement-set members "
                     "listed once, no unknown type value (TypeValue{Type: nil}, produced only by decoding stored data; it is "
                     "deliberately unequal to itself: unknown_type_not_reflexive_witness)",
                     "a primitive static type is identified by its type ID (stream op `prims`, exhaustive)"],
